@@ -47,3 +47,77 @@ Theorem c01_ids :
     ids_ok (s_trace st) /\ s_ntrials st = count_starts (s_trace st).
 Proof. exact run_loop_idinv. Qed.
 Print Assumptions c01_ids.
+
+Theorem c01_assert_never_fires :
+  forall prm o fuel st out, run prm o fuel = (st, out) -> out <> Raised EAssertBudget.
+Proof. exact run_outcome_not_assert. Qed.
+Print Assumptions c01_assert_never_fires.
+
+(* --- life cycle --------------------------------------------------------------
+   For every trial t, the events of the trace that concern t (backend.start_trial, scheduler.on_trial_add,
+   on_trial_result with its decision, backend.stop_trial / pause_trial, on_trial_remove, on_trial_complete,
+   on_trial_error, backend.resume_trial — [tev_of]) are accepted by the automaton [pstep]:
+     not started -start-> -add-> RUNNING -result CONTINUE-> RUNNING
+     RUNNING -result STOP-> [-backend stop->] -remove-> ENDED        RUNNING -complete-> ENDED
+     RUNNING -result PAUSE-> -backend pause-> -remove-> PAUSED       RUNNING -error-> ENDED
+     PAUSED -resume-> RUNNING                                        everything else -> PBad.
+   [phase_of t tr = PBad] iff some prefix of the per-trial projection is rejected.  Holds for the trace up
+   to every iteration boundary / loop exit of every run (the finally block only adds stop_all's stops). *)
+Theorem c01_lifecycle :
+  forall prm o fuel st x, run_loop prm o fuel = (st, x) -> forall t, phase_of t (s_trace st) <> PBad.
+Proof. exact run_loop_life. Qed.
+Print Assumptions c01_lifecycle.
+
+(* only a paused trial is ever resumed: backend.resume_trial (event EBResume) is issued exactly when
+   the backend's record of the trial says Paused; for any other suggestion to resume, the run ends
+   with the backend's assertion error (model outcome EResumeNotPaused / EResumeUnknown) and nothing is resumed.
+   (The scheduler is an arbitrary oracle here, so the second disjunct cannot be dropped at this layer.) *)
+Theorem c01_resume_only_paused :
+  forall o st st' r id cfg,
+  o_sug o (s_ns st) = SResume id cfg -> schedule_new_task o st = (st', r) ->
+  ((id < s_ntrials st)%nat /\ b_td (s_bt st id) = Paused /\ r = SOk /\
+   s_trace st' = ECbResume id :: EBResume id cfg :: ESSuggest (s_ntrials st) (SResume id cfg) :: s_trace st) \/
+  ((r = SErr (EResumeNotPaused id) \/ r = SErr (EResumeUnknown id)) /\
+   ((id < s_ntrials st)%nat -> b_td (s_bt st id) <> Paused) /\
+   s_trace st' = ESSuggest (s_ntrials st) (SResume id cfg) :: s_trace st).
+Proof. exact resume_only_paused. Qed.
+Print Assumptions c01_resume_only_paused.
+
+(* --- scheduler notifications ---------------------------------------------------
+   (1) order and multiplicity per trial run: the automaton of c01_lifecycle restricted to the scheduler's
+       methods says: on_trial_add directly follows the start (no other event of that trial in between),
+       then on_trial_result*, then exactly one of on_trial_remove (after the scheduler's own STOP/PAUSE) /
+       on_trial_complete / on_trial_error, then nothing for that trial unless it is resumed from PAUSED.
+   (2) which results: within one poll, the on_trial_result calls are exactly the results the backend
+       returned, in that order, except that results of a trial following its own STOP/PAUSE in the same
+       batch are dropped ([told] is this specification; [sres] lists the calls in the trace). *)
+Theorem c01_callbacks :
+  (forall prm o fuel st x, run_loop prm o fuel = (st, x) -> forall t, phase_of t (s_trace st) <> PBad) /\
+  (forall o sd rs st st' done', loop1 o sd rs st [] = (st', done') ->
+     sres (s_trace st') = sres (s_trace st) ++ told o (s_nd st) [] rs).
+Proof.
+  split; [exact run_loop_life|]. intros o sd rs st st' done' H.
+  exact (loop1_told o sd rs st [] st' done' [] H (fun x => eq_refl)).
+Qed.
+Print Assumptions c01_callbacks.
+
+(* --- non-vacuity: a concrete run (2 workers) in which trial 0 reports, is paused, resumed, and completes,
+   trial 1 fails, trial 2 is stopped by the scheduler; all phases legal, budget respected. *)
+Definition ex_oracles : oracles :=
+  {| o_world := fun n => nth n [([{| r_metric := 1; r_cost := 1; r_ts := 1 |}], WInProgress); ([], WFailed);
+                               ([{| r_metric := 2; r_cost := 1; r_ts := 2 |}], WInProgress);
+                               ([{| r_metric := 3; r_cost := 1; r_ts := 3 |}], WCompleted)]%Q ([], WInProgress);
+     o_ord := fun n => nth n [[]; [0; 1]; [2; 0]]%nat [];
+     o_dec := fun n => nth n [PAUSE; STOP; CONTINUE] CONTINUE;
+     o_sug := fun n => nth n [SStart 5 None; SStart 6 None; SStart 7 (Some 0%nat); SResume 0 None; SNothing] SNothing;
+     o_clk := fun _ => 0%Q; o_ext := fun n => Nat.leb 5 n |}.
+Definition ex_params : params :=
+  {| n_workers := 2; async := true; wait_completion := false; max_failures := 3; c_wallclock := None; c_evals := None;
+     c_started := None; c_completed := None; c_finished := None; c_cost := None; c_min_metric := None; c_max_metric := None |}.
+Example c01_example :
+  let '(st, x) := run_loop ex_params ex_oracles 10 in
+  x = LExit None /\ s_ntrials st = 3%nat /\
+  map (fun t => phase_of t (s_trace st)) [0; 1; 2; 3]%nat = [PE; PE; PE; PN] /\
+  existsb (fun e => match e with EBResume 0 None => true | _ => false end) (s_trace st) = true /\
+  s_smap st = [(0, Completed); (1, Failed); (2, Stopped)]%nat.
+Proof. vm_compute. repeat split. Qed.
